@@ -80,16 +80,15 @@ impl<R: BufRead> BufRead for SymEncryptedDataReader<R> {
     fn fill_buf(&mut self) -> io::Result<&[u8]> {
         match self {
             Self::Body { ref mut decryptor } => decryptor.fill_buf(),
-            Self::Error => {
-                panic!("SymEncryptedDataReader errored")
-            }
+            Self::Error => Err(io::Error::other("SymEncryptedDataReader errored")),
         }
     }
 
     fn consume(&mut self, amt: usize) {
         match self {
             Self::Body { decryptor } => decryptor.consume(amt),
-            Self::Error => panic!("SymEncryptedDataReader errored"),
+            // `consume` after an error must not panic (the reader keeps returning `Err`)
+            Self::Error => {}
         }
     }
 }
